@@ -1834,6 +1834,22 @@ let rec inst e arg0 = function
 let fstring e p =
   inst e [] p
 
+(** val merge_lits : pattern -> pattern **)
+
+let rec merge_lits = function
+| [] -> []
+| x :: r ->
+  (match x with
+   | PLit a ->
+     (match merge_lits r with
+      | [] -> let r' = [] in if eqb0 a [] then r' else (PLit a) :: r'
+      | p0 :: r' ->
+        (match p0 with
+         | PLit b -> (PLit (append a b)) :: r'
+         | x0 ->
+           let r'0 = x0 :: r' in if eqb0 a [] then r'0 else (PLit a) :: r'0))
+   | _ -> x :: (merge_lits r))
+
 type ckind =
 | KSingle
 | KColl
@@ -2142,11 +2158,26 @@ type cpv = { v_args : char list list; v_includes : char list list;
 let param_name =
   'c'::('o'::('l'::('l'::('e'::('c'::('t'::('i'::('o'::('n'::('_'::('n'::('a'::('m'::('e'::[]))))))))))))))
 
+(** val compose : pattern -> pattern -> pattern **)
+
+let compose cls line =
+  merge_lits
+    (flat_map (fun x ->
+      match x with
+      | PHole h -> (match h with
+                    | HCont -> cls
+                    | _ -> x :: [])
+      | _ -> x :: []) line)
+
+(** val line_env : cspec -> char list -> henv **)
+
+let line_env s tok =
+  { e_cont = []; e_type = s.cs_type; e_tok = tok }
+
 (** val running_code : coder -> cspec -> char list -> char list list **)
 
 let running_code cd s tok =
-  let e = { e_cont = (cont_str s); e_type = s.cs_type; e_tok = tok } in
-  map (fstring e) cd.cd_lines
+  map (fun p -> fstring (line_env s tok) (compose s.cs_str p)) cd.cd_lines
 
 (** val token_fields : coder -> cspec -> uname -> (vdecl * char list) list **)
 
@@ -2156,8 +2187,7 @@ let token_fields cd s tok =
     (match token_type s with
      | Some tty ->
        ({ vd_type = tty; vd_name = tok },
-         (fstring { e_cont = (cont_str s); e_type = s.cs_type; e_tok =
-           (render_name tok) } p)) :: []
+         (fstring (line_env s (render_name tok)) (compose s.cs_str p))) :: []
      | None -> [])
   | None -> []
 
@@ -2928,7 +2958,7 @@ let cms_miniaod_coder =
     ('i'::('E'::('v'::('e'::('n'::('t'::('.'::('g'::('e'::('t'::('B'::('y'::('T'::('o'::('k'::('e'::('n'::('('::[]))))))))))))))))))) :: ((PHole
     HTok) :: ((PLit
     (','::(' '::('r'::('e'::('s'::('u'::('l'::('t'::(')'::(';'::[]))))))))))) :: []))) :: []));
-    cd_alloc = TokPerClass; cd_init = (Some ((PLit
+    cd_alloc = TokPerCall; cd_init = (Some ((PLit
     ('c'::('o'::('n'::('s'::('u'::('m'::('e'::('s'::('<'::[])))))))))) :: ((PHole
     HType) :: ((PLit
     ('>'::('('::('e'::('d'::('m'::(':'::(':'::('I'::('n'::('p'::('u'::('t'::('T'::('a'::('g'::('('::('c'::('o'::('l'::('l'::('e'::('c'::('t'::('i'::('o'::('n'::('_'::('n'::('a'::('m'::('e'::(')'::(')'::[])))))))))))))))))))))))))))))))))) :: [])))) }
@@ -2970,7 +3000,7 @@ let md_kinds =
     ('e'::('d'::('m'::(':'::(':'::('H'::('a'::('n'::('d'::('l'::('e'::('<'::[]))))))))))))) :: ((PHole
     HType) :: ((PLit ('>'::[])) :: []))); cc_token = None; cc_pd_type = (S
     O); cc_pd_elem = O }; mk_single = None; mk_libs = false; mk_elem_ptr =
-    false } :: ({ mk_type =
+    true } :: ({ mk_type =
     ('a'::('d'::('d'::('_'::('c'::('m'::('s'::('_'::('m'::('i'::('n'::('i'::('a'::('o'::('d'::('_'::('e'::('v'::('e'::('n'::('t'::('_'::('c'::('o'::('l'::('l'::('e'::('c'::('t'::('i'::('o'::('n'::('_'::('i'::('n'::('f'::('o'::[])))))))))))))))))))))))))))))))))))));
     mk_keys =
     (('m'::('e'::('t'::('a'::('d'::('a'::('t'::('a'::('_'::('t'::('y'::('p'::('e'::[]))))))))))))) :: (('n'::('a'::('m'::('e'::[])))) :: (('i'::('n'::('c'::('l'::('u'::('d'::('e'::('_'::('f'::('i'::('l'::('e'::('s'::[]))))))))))))) :: (('c'::('o'::('n'::('t'::('a'::('i'::('n'::('e'::('r'::('_'::('t'::('y'::('p'::('e'::[])))))))))))))) :: (('e'::('l'::('e'::('m'::('e'::('n'::('t'::('_'::('t'::('y'::('p'::('e'::[])))))))))))) :: (('c'::('o'::('n'::('t'::('a'::('i'::('n'::('s'::('_'::('c'::('o'::('l'::('l'::('e'::('c'::('t'::('i'::('o'::('n'::[]))))))))))))))))))) :: (('e'::('l'::('e'::('m'::('e'::('n'::('t'::('_'::('p'::('o'::('i'::('n'::('t'::('e'::('r'::[]))))))))))))))) :: [])))))));
@@ -2983,7 +3013,7 @@ let md_kinds =
     HType) :: ((PLit ('>'::[])) :: []))); cc_token = (Some ((PLit
     ('e'::('d'::('m'::(':'::(':'::('E'::('D'::('G'::('e'::('t'::('T'::('o'::('k'::('e'::('n'::('T'::('<'::[])))))))))))))))))) :: ((PHole
     HType) :: ((PLit ('>'::[])) :: [])))); cc_pd_type = (S O); cc_pd_elem =
-    O }; mk_single = None; mk_libs = false; mk_elem_ptr = false } :: []))
+    O }; mk_single = None; mk_libs = false; mk_elem_ptr = true } :: []))
 
 (** val default_types :
     (char list * (((char list * char list) * char list) * nat) list) list **)
